@@ -265,6 +265,128 @@ where
     crate::cover!(s, v > 100, "large value");
 }
 
+// ---------------------------------------------------------------- concurrent updates through the shared wrapper
+//
+// Kani has no threads. What other threads can do to the statistics is modelled at the only points where
+// they can touch them: lock acquisitions. `std::sync::Mutex::lock` is stubbed (Kani run only) by a function
+// that takes the lock and then, nondeterministically, applies a complete `update(w)` of "another thread"
+// before handing the guard over. If every wrapper operation performs its whole read-modify-write under ONE
+// acquisition, the final statistics contain our update plus every interfering one; an implementation that
+// releases the lock in the middle (copy out, update, store back) loses the interfering updates and is refuted.
+// Native replay of a counterexample = a real multi-threaded stress run with the same values.
+
+#[cfg(kani)]
+static mut INTERFERE_VALUE: u64 = 0;
+#[cfg(kani)]
+static mut INTERFERE_COUNT: u64 = 0;
+
+#[cfg(kani)]
+pub fn stub_mutex_lock<T: ?Sized>(m: &std::sync::Mutex<T>) -> std::sync::LockResult<std::sync::MutexGuard<'_, T>> {
+    let mut g = match m.try_lock() {
+        Ok(g) => g,
+        Err(_) => panic!("lock acquired while already held"),
+    };
+    unsafe {
+        if kani::any::<bool>() && INTERFERE_COUNT < 3 {
+            let p = &mut *g as *mut T as *mut CodesStats<2, 3, 2, 2, 2>;
+            (*p).update(INTERFERE_VALUE);
+            INTERFERE_COUNT += 1;
+        }
+    }
+    Ok(g)
+}
+
+/// which: 0 DynamicCodeWrite, 1 DynamicCodeRead, 2 StaticCodeWrite, 3 StaticCodeRead
+pub fn wrapper_atomic_step<S: Src, const WHICH: u8>(s: &mut S) {
+    let v = s.u64();
+    let w = s.u64();
+    s.assume(v < (1 << 12) && w < (1 << 12));
+    #[cfg(kani)]
+    {
+        unsafe {
+            INTERFERE_VALUE = w;
+            INTERFERE_COUNT = 0;
+        }
+        let wr = CodesStatsWrapper::<Codes, 2, 3, 2, 2, 2>::new(Codes::Gamma);
+        let mut a = MS::<BE, true>::new();
+        a.write_gamma(v).unwrap();
+        a.write_unary(1).unwrap();
+        match WHICH {
+            0 => {
+                let mut b = MS::<BE, true>::new();
+                let _ = DynamicCodeWrite::write(&wr, &mut b, v).unwrap();
+            }
+            1 => {
+                let x = DynamicCodeRead::read(&wr, &mut a).unwrap();
+                assert_eq!(x, v);
+            }
+            2 => {
+                let mut b = MS::<BE, true>::new();
+                let _ = <CodesStatsWrapper<Codes, 2, 3, 2, 2, 2> as StaticCodeWrite<BE, MS<BE, true>>>::write(&wr, &mut b, v).unwrap();
+            }
+            _ => {
+                let x = <CodesStatsWrapper<Codes, 2, 3, 2, 2, 2> as StaticCodeRead<BE, MS<BE, true>>>::read(&wr, &mut a).unwrap();
+                assert_eq!(x, v);
+            }
+        }
+        let k = unsafe { INTERFERE_COUNT };
+        let (_inner, st) = wr.into_inner();
+        let mut exp = CodesStats::<2, 3, 2, 2, 2>::default();
+        exp.update(v);
+        let mut i = 0;
+        while i < 3 {
+            if i < k {
+                exp.update(w);
+            }
+            i += 1;
+        }
+        assert!(st.total == exp.total, "an update performed by another thread between two lock acquisitions of one wrapper operation was lost (element count)");
+        assert!(st.gamma == exp.gamma && st.unary == exp.unary && st.delta == exp.delta && st.zeta[1] == exp.zeta[1] && st.golomb[2] == exp.golomb[2], "an update performed by another thread was lost (totals)");
+        crate::cover!(s, k >= 1, "interference happened");
+    }
+    #[cfg(not(kani))]
+    {
+        // native replay: real threads hammering one shared wrapper
+        use std::sync::Arc;
+        let wr = Arc::new(CodesStatsWrapper::<Codes, 2, 3, 2, 2, 2>::new(Codes::Gamma));
+        let threads = 8;
+        let iters = 20_000;
+        let mut hs = Vec::new();
+        for t in 0..threads {
+            let wr = wr.clone();
+            let val = if t % 2 == 0 { v } else { w };
+            hs.push(std::thread::spawn(move || {
+                for _ in 0..iters {
+                    let mut src = MS::<BE, true>::new();
+                    src.write_gamma(val).unwrap();
+                    src.write_unary(1).unwrap();
+                    let mut b = MS::<BE, true>::new();
+                    match WHICH {
+                        0 => {
+                            let _ = DynamicCodeWrite::write(&*wr, &mut b, val).unwrap();
+                        }
+                        1 => {
+                            let _ = DynamicCodeRead::read(&*wr, &mut src).unwrap();
+                        }
+                        2 => {
+                            let _ = <CodesStatsWrapper<Codes, 2, 3, 2, 2, 2> as StaticCodeWrite<BE, MS<BE, true>>>::write(&*wr, &mut b, val).unwrap();
+                        }
+                        _ => {
+                            let _ = <CodesStatsWrapper<Codes, 2, 3, 2, 2, 2> as StaticCodeRead<BE, MS<BE, true>>>::read(&*wr, &mut src).unwrap();
+                        }
+                    }
+                }
+            }));
+        }
+        for h in hs {
+            h.join().unwrap();
+        }
+        let total = wr.stats().lock().unwrap().total;
+        assert_eq!(total, (threads * iters) as u64, "updates from concurrent threads were lost (element count)");
+        let _ = s;
+    }
+}
+
 crate::harnesses! {
     #[kani::unwind(22)]
     c15_update_default_n12 (quick, "CodesStats<10,20,10,10,10> (default)", "any stats value (fields<2^56), update(n), n<2^12") => update_step::<_, 10, 20, 10, 10, 10, 12, 1, false>;
@@ -286,4 +408,16 @@ crate::harnesses! {
     c15_wrapper_be (quick, "CodesStatsWrapper<Codes,2,3,2,2,2> over MS<BE>", "write then read of a symbolic value < 2^12 through the wrapper (Mutex path)") => wrapper_step::<BE, _>;
     #[kani::unwind(12)]
     c15_wrapper_le (thorough, "CodesStatsWrapper<Codes,2,3,2,2,2> over MS<LE>", "write then read of a symbolic value < 2^12 through the wrapper (Mutex path)") => wrapper_step::<LE, _>;
+    #[kani::stub(std::sync::Mutex::lock, stub_mutex_lock)]
+    #[kani::unwind(12)]
+    c15_atomic_dynwrite (quick, "CodesStatsWrapper<Codes,2,3,2,2,2> dynwrite path under interference at lock acquisitions", "symbolic value and interfering value < 2^12; up to 3 interfering updates by other threads, each at any lock acquisition (Mutex::lock stubbed)") => wrapper_atomic_step::<_, 0>;
+    #[kani::stub(std::sync::Mutex::lock, stub_mutex_lock)]
+    #[kani::unwind(12)]
+    c15_atomic_dynread (quick, "CodesStatsWrapper<Codes,2,3,2,2,2> dynread path under interference at lock acquisitions", "symbolic value and interfering value < 2^12; up to 3 interfering updates by other threads, each at any lock acquisition (Mutex::lock stubbed)") => wrapper_atomic_step::<_, 1>;
+    #[kani::stub(std::sync::Mutex::lock, stub_mutex_lock)]
+    #[kani::unwind(12)]
+    c15_atomic_staticwrite (quick, "CodesStatsWrapper<Codes,2,3,2,2,2> staticwrite path under interference at lock acquisitions", "symbolic value and interfering value < 2^12; up to 3 interfering updates by other threads, each at any lock acquisition (Mutex::lock stubbed)") => wrapper_atomic_step::<_, 2>;
+    #[kani::stub(std::sync::Mutex::lock, stub_mutex_lock)]
+    #[kani::unwind(12)]
+    c15_atomic_staticread (quick, "CodesStatsWrapper<Codes,2,3,2,2,2> staticread path under interference at lock acquisitions", "symbolic value and interfering value < 2^12; up to 3 interfering updates by other threads, each at any lock acquisition (Mutex::lock stubbed)") => wrapper_atomic_step::<_, 3>;
 }
